@@ -270,11 +270,14 @@ def _invert(test: ast.AST) -> ast.AST:
     return ast.UnaryOp(op=ast.Not(), operand=test)
 
 
-def structural_twins(repo: str, rel: str, families: tuple[str, ...] = ("invert-if", "temp-return")) -> list[tuple[str, dict[str, str]]]:
+def structural_twins(repo: str, rel: str, families: tuple[str, ...] = ("invert-if", "temp-return", "split-and", "flip-compare", "early-continue")) -> list[tuple[str, dict[str, str]]]:
     """(description, overlay): one twin per site.
 
     invert-if    ``if c: A else: B``  ->  ``if not c: B else: A``
     temp-return  ``return <expr>``    ->  ``_ret_tw = <expr>; return _ret_tw``
+    split-and    ``if a and b: X``    ->  ``if a:`` / ``if b: X``            (no else)
+    flip-compare ``a == b`` / ``a != b`` -> ``b == a`` / ``b != a``         (call-free operands)
+    early-continue  ``for ..: if c: BODY`` <-> ``for ..: if not c: continue; BODY``  (both directions)
     """
     import copy as _copy
 
@@ -320,4 +323,63 @@ def structural_twins(repo: str, rel: str, families: tuple[str, ...] = ("invert-i
                     continue
                 break
             emit(f"temp-return@{site.lineno}", tree)
+    def per_site(pred, rewrite, tag):
+        sites = [n for n in ast.walk(base) if pred(n)]
+        for i, site in enumerate(sites):
+            tree = _copy.deepcopy(base)
+            tgt = [n for n in ast.walk(tree) if pred(n)][i]
+            if rewrite(tree, tgt) is False:
+                continue
+            emit(f"{tag}@{site.lineno}", tree)
+
+    def holder_of(tree, stmt):
+        for holder in ast.walk(tree):
+            for fld in ("body", "orelse", "finalbody"):
+                lst = getattr(holder, fld, None)
+                if isinstance(lst, list) and any(x is stmt for x in lst):
+                    return lst
+        return None
+
+    if "split-and" in families:
+        # if a and b: X   (no else)   ->   if a:\n    if b: X
+        def pred(n):
+            return isinstance(n, ast.If) and not n.orelse and isinstance(n.test, ast.BoolOp) and isinstance(n.test.op, ast.And) and len(n.test.values) >= 2
+
+        def rw(tree, t):
+            first, rest = t.test.values[0], t.test.values[1:]
+            inner = ast.If(test=rest[0] if len(rest) == 1 else ast.BoolOp(op=ast.And(), values=rest), body=t.body, orelse=[])
+            t.test, t.body = first, [inner]
+
+        per_site(pred, rw, "split-and")
+    if "flip-compare" in families:
+        # a == b -> b == a ; a != b -> b != a   (operands without calls)
+        def simple(e):
+            return not any(isinstance(x, (ast.Call, ast.Await, ast.NamedExpr)) for x in ast.walk(e))
+
+        def pred2(n):
+            return isinstance(n, ast.Compare) and len(n.ops) == 1 and isinstance(n.ops[0], (ast.Eq, ast.NotEq)) and simple(n.left) and simple(n.comparators[0])
+
+        def rw2(tree, t):
+            t.left, t.comparators = t.comparators[0], [t.left]
+
+        per_site(pred2, rw2, "flip-compare")
+    if "early-continue" in families:
+        # for x in xs: if c: BODY   (the if is the whole loop body, no else)  ->  if not c: continue; BODY
+        def pred3(n):
+            return isinstance(n, (ast.For, ast.AsyncFor)) and len(n.body) == 1 and isinstance(n.body[0], ast.If) and not n.body[0].orelse and not n.orelse
+
+        def rw3(tree, t):
+            i = t.body[0]
+            t.body = [ast.If(test=_invert(i.test), body=[ast.Continue()], orelse=[])] + i.body
+
+        per_site(pred3, rw3, "early-continue")
+        # if c: continue; REST  (first statement of a loop body)  ->  if not c: REST
+        def pred4(n):
+            return isinstance(n, (ast.For, ast.AsyncFor)) and len(n.body) >= 2 and isinstance(n.body[0], ast.If) and not n.body[0].orelse and len(n.body[0].body) == 1 and isinstance(n.body[0].body[0], ast.Continue)
+
+        def rw4(tree, t):
+            i = t.body[0]
+            t.body = [ast.If(test=_invert(i.test), body=t.body[1:], orelse=[])]
+
+        per_site(pred4, rw4, "guard-to-nest")
     return out
